@@ -262,6 +262,8 @@ class MPUChunk:
         if self.write_credits - 1 < parts_to_keep:
             return 0
 
+        # never spill less than the writer can accept for a non-final part
+        spill_sz = max(spill_sz, write.min_write_sz)
         bytes_to_write = len(self.data) - rhs_keep - lhs_keep
         if bytes_to_write < spill_sz:
             return 0
